@@ -606,6 +606,9 @@ def make_sampled_cfg(seed, i):
     campaign.maybe_failpoint(cfg, rng, p=0.1)
     # the two remaining arguments of solve(): progress table on stdout, logging switched off
     r3 = np.random.default_rng([int(seed), NUM, int(i), 5])
+    if cfg["args"].get("scaling_within_bounds") and r3.random() < 0.4:
+        # scaled runs that end while the initial set is still being built (no Jacobian to un-scale)
+        cfg["args"]["maxfun"] = int(r3.integers(1, n + 2))
     if r3.random() < 0.2:
         cfg["args"]["print_progress"] = True
     if r3.random() < 0.15 and not cfg["args"].get("scaling_within_bounds"):
